@@ -73,13 +73,13 @@ func runPrelude(item string, cs []*mdiff.Chunk, fi *mdiff.FileInfo) (func() stri
 		text := tr.UnHex(item[2:])
 		switch item[0] {
 		case 'n':
-			p, err := mdiff.Read(strings.NewReader(text))
+			p, err := mdiff.Read(src(text))
 			return func() string { return encPatch(p, err) }, true
 		case 'u':
-			p, err := mdiff.ReadUnified(strings.NewReader(text))
+			p, err := mdiff.ReadUnified(src(text))
 			return func() string { return encPatch(p, err) }, true
 		case 'g':
-			ps, err := mdiff.ReadGitPatch(strings.NewReader(text))
+			ps, err := mdiff.ReadGitPatch(src(text))
 			return func() string { return encPatches(ps, err) }, true
 		}
 		return nil, false
@@ -123,15 +123,15 @@ func execQ(f []string) string {
 	switch f[2] {
 	case "n":
 		text = format(mdiff.Normal, cs, fi)
-		p, err := mdiff.Read(strings.NewReader(text))
+		p, err := mdiff.Read(src(text))
 		res, re = encPatch(p, err), reformat(p, err, mdiff.Normal)
 	case "u":
 		text = format(mdiff.Unified, cs, fi)
-		p, err := mdiff.ReadUnified(strings.NewReader(text))
+		p, err := mdiff.ReadUnified(src(text))
 		res, re = encPatch(p, err), reformat(p, err, mdiff.Unified)
 	case "g":
 		text = gitJunk + format(mdiff.Unified, cs, fi)
-		res, re = encPatches(mdiff.ReadGitPatch(strings.NewReader(text))), "-"
+		res, re = encPatches(mdiff.ReadGitPatch(src(text))), "-"
 	default:
 		return "?"
 	}
